@@ -33,7 +33,7 @@ class C17(WigBedProp):
     rule = ("bigWigs written as in C01 with small integer values; per file 8–14 BED regions on chromosomes present in the file: "
             "inside a value, straddling values, in gaps, across the whole chromosome, empty regions; stats_for_bed_item in-process "
             "(size, covered bases, sum, min, max vs model; mean0 and mean recomputed as the same IEEE quotient); command line: "
-            "bigwigaverageoverbed -t 1,2,3,8,16 × name modes {column 4, interval, none} × --min-max and bigwigvaluesoverbed, rows "
+            "bigwigaverageoverbed -t 1,2,3,8,16 × name modes {column 4, column 5, interval, none} with names containing blanks and empty columns × --min-max and bigwigvaluesoverbed, rows "
             "compared with -t 1 and with the oracle. Non-trivial = a region that cuts at least one value or covers nothing")
 
     def cases(self, rng, tier):
@@ -130,12 +130,15 @@ class C17(WigBedProp):
                     b = min(sizes[n], a + 1)
                     if a == b:
                         a -= 1
-                regs.append((n, a, b, f"reg{i}", str(i % 7)))
+                # names as users write them: plain, with blanks inside (the BED columns are TAB separated), and — when the
+                # name is taken from column 5 — an EMPTY column 4 before it
+                nm4 = r.choice([f"reg{i}", f"reg{i}", f"gene {i} (predicted)", f"x  y{i}", ""]) if nreg <= 1000 else f"reg{i}"
+                regs.append((n, a, b, nm4, f"s{i % 7} q" if (nreg <= 1000 and i % 5 == 0) else f"s{i % 7}"))
             bed = os.path.join(d, f"r{k}.bed")
             with open(bed, "w") as f:
                 for (n, a, b, name, sc) in regs:
                     f.write(f"{n}\t{a}\t{b}\t{name}\t{sc}\n")
-            for mode in (["-n", "4"], ["-n", "interval"], ["-n", "none"], []):
+            for mode in (["-n", "4"], ["-n", "5"], ["-n", "interval"], ["-n", "none"], []):
                 if nreg > 1000 and mode != ["-n", "4"]:
                     continue
                 for mm in ([], ["--min-max"]):
@@ -193,6 +196,10 @@ class C17(WigBedProp):
                 if t[:5] != [n, str(a), str(b), name, sc]:
                     return f"row starts `{t[:5]}`, expected the input row"
                 rest = t[5:]
+            elif mode == ["-n", "5"]:
+                if t[0] != sc:
+                    return f"row name `{t[0]}`, expected column 5 of the input row `{sc}`"
+                rest = t[1:]
             else:
                 if t[0] != name:
                     return f"row name `{t[0]}`, expected `{name}`"
